@@ -1083,7 +1083,7 @@ def run(ck):
                          "abandoned function: counter effects measured, not computed (lifecycle_model_correspondence.measured_programs)",
                          "C08 command streams with strict validation are left to C08 (the validator's verdict is an input of its model)"],
          "proved_vs_compared": {
-             "proved_for_all_inputs": "73 theorems: coverage obligation over ALL members/routes of the regenerated data; value and tear-down "
+             "proved_for_all_inputs": "76 theorems: coverage obligation over ALL members/routes of the regenerated data; value and tear-down "
                                       "obligations over ALL extracted assignments of the reviewed reset / tear-down functions; lifecycle model over "
                                       "ALL histories from the start state (no `ready` side condition); C08 node-list model over ALL command "
                                       "sequences and histories (no `supported` side condition; no finite sweep, no sampling)",
